@@ -46,6 +46,41 @@ def recovery_scripts(r, prefix, per_state=True):
     return scripts, nstates
 
 
+def concurrent_recovery_scripts(r, prefix, limit):
+    """liveness quantifies over every reachable state, also the ones only concurrent histories reach (a call that spans
+    a trip and a timeout and completes late): BFS path to the state, the calls still in flight are let run to their
+    end, then the recovery script"""
+    from collections import deque
+    adj = graphs.build(r.printed("TR"))
+    scripts = []
+    for i, ini in enumerate(r.printed("IN")):
+        cf = ini["cf"]
+        par = {ini["s"]: None}
+        dq = deque([ini["s"]])
+        order = []
+        while dq:
+            s = dq.popleft()
+            order.append(s)
+            for (k, a, t) in adj.get(s, []):
+                if t not in par:
+                    par[t] = (s, a)
+                    dq.append(t)
+        step = max(1, len(order) // limit)
+        for j, s in enumerate(order):
+            if j % step:
+                continue
+            p = []
+            x = s
+            while par[x] is not None:
+                x, a = par[x][0], par[x][1]
+                p.append(a)
+            p.reverse()
+            drain = [{"a": "step", "c": c} for _ in range(6) for c in (1, 2)]
+            n = 2 * (cf["st"] + max(cf["mr"], 1)) + 2
+            scripts.append({"id": "%s-%d-%d" % (prefix, i, j), "cf": cf, "via": "lb", "steps": p + drain + [{"a": "recover", "n": n}]})
+    return scripts
+
+
 def run(tier):
     chk = vlib.Check("C08", tier)
     sd = vlib.scratch("c08")
@@ -74,6 +109,13 @@ def run(tier):
     for s in scripts[:2000]:
         chk.count_case([s["cf"], len(s["steps"])])
     bc.judge(chk, tp, scripts, CLAUSES)
+    # the same from the states of two concurrent callers, time passing while calls are in flight
+    rc = bc.tlc_with_cfg("MCBreaker", bc.gen_cfg_text([1, 2], "CfgLive2", False, tick_busy=True, outcomes='{"ok", "err"}'), "genc.cfg", workers=8, timeout=1500)
+    cscripts = concurrent_recovery_scripts(rc, "crec", 6000 if thorough else 1500)
+    tpc = bc.replay(binp, cscripts, sd, "crec", timeout=2400)
+    chk.cov["traces_validated_against_impl"] += len(cscripts)
+    chk.cov["concurrent_states_probed"] = len(cscripts)
+    bc.judge(chk, tpc, cscripts, CLAUSES, concurrent=True)
     chk.sample({"script": scripts[-1]["id"], "cf": scripts[-1]["cf"], "steps": scripts[-1]["steps"],
                 "events": bc.segment(tp, scripts[-1]["id"])[-6:]})
     chk.cov["exhaustive"] = True
